@@ -164,8 +164,18 @@ func Check(c Case, ev *evid.Collector, cobra CobraFn) (*evid.Violation, *Infra) 
 	if regBefore != regAfter && regOff == 0 {
 		return nil, &Infra{fmt.Errorf("model registry state changed without a state-changing request:\n%s", firstDiffLine(regBefore, regAfter))}
 	}
-	if obs.Probes == 0 && totalStmts(c) > 0 {
-		return nil, &Infra{fmt.Errorf("no statement boundary probe was observed (transport not wired to the model?)")}
+	expectProbe := false
+	for si, sc := range c.Scripts {
+		if sc.Kind == "" && len(sc.Stmts) > 0 && !obs.Scripts[si].TimedOut() && !obs.Scripts[si].Cancelled() {
+			expectProbe = true
+		}
+	}
+	if obs.Probes == 0 && expectProbe {
+		errs := []string{}
+		for _, so := range obs.Scripts {
+			errs = append(errs, so.Err)
+		}
+		return nil, &Infra{fmt.Errorf("no statement boundary probe was observed (transport not wired to the model?) mode=%s cmdErr=%q scriptErrs=%q conf=%+v", c.Mode, obs.CmdErr, errs, c.Conf)}
 	}
 
 	// ---- clause (4): markers -------------------------------------------------
@@ -175,7 +185,7 @@ func Check(c Case, ev *evid.Collector, cobra CobraFn) (*evid.Violation, *Infra) 
 	}
 
 	// ---- clause (3): read-only scripts behave as in a normal run -------------
-	if c.ReadOnly && vd.first == nil && len(obs.Offenses) == 0 {
+	if c.ReadOnly && vd.first == nil && len(obs.Offenses) == 0 && len(c.CancelAt) != 2 {
 		obsN, err := Run(w, c, false, cobra)
 		if err != nil {
 			return nil, &Infra{err}
@@ -253,6 +263,26 @@ func checkMarkers(c Case, obs *Obs, vd *verdict) {
 	sequential := c.Mode != "cobra" || c.Parallel <= 0
 	for si, s := range c.Scripts {
 		so := obs.Scripts[si]
+		if s.Kind != "" {
+			// the empty script and a script that does not parse have no markers; what
+			// matters is that the scripts after them are judged as usual
+			if so.Failed {
+				anyFailedBefore = true
+			}
+			if s.Kind == "badsyntax" && len(so.Msgs) > 0 {
+				vd.fail(evid.V("unparsable-script-ran", "script %s does not parse but logged %q", scriptName(c, si), so.Msgs))
+			}
+			continue
+		}
+		if obs.Cancelled && so.Cancelled() {
+			// the harness cancelled the command context (Case.CancelAt): how far this
+			// script got is not judged; clauses (1), (2) and the throttle drain are
+			vd.labels = append(vd.labels, "outcome:script-saw-cancelled-context-not-judged")
+			if so.Failed {
+				anyFailedBefore = true
+			}
+			continue
+		}
 		if so.TimedOut() {
 			// Scripts run one after another here, so whenever a binding asks for a
 			// throttle slot every slot must be free (Acquire then returns at once
@@ -379,6 +409,9 @@ var addrRE = regexp.MustCompile(`0x[0-9a-f]+`)
 func compareRuns(c Case, dry, nor *Obs, vd *verdict) {
 	for si := range c.Scripts {
 		a, b := dry.Scripts[si], nor.Scripts[si]
+		if c.Scripts[si].Kind != "" {
+			continue
+		}
 		if a.TimedOut() || b.TimedOut() {
 			continue // wall clock (checkMarkers has judged a wait for the throttle)
 		}
@@ -454,6 +487,34 @@ func caseLabels(c Case, obs *Obs) []string {
 	if c.ReadOnly {
 		set["case:read-only"] = true
 	}
+	if len(c.CancelAt) == 2 {
+		set["ctx:harness-cancels-command-context"] = true
+	}
+	if c.DefTimeout != "" {
+		set["conf:defaults.timeout"] = true
+	}
+	set["conf:verbosity="+c.Verbosity] = true
+	if c.Mode == "cobra" {
+		set[fmt.Sprintf("conf:cli-arg-style-%d", c.Conf.ArgStyle)] = true
+		if c.Conf.Stdin {
+			set["conf:config-on-stdin"] = true
+		}
+		set[fmt.Sprintf("conf:yaml-style-%d", c.YAMLStyle)] = true
+	}
+	for l, on := range map[string]bool{"conf:docker-config-loaded": c.Conf.LoadDockerConf, "conf:userAgent": c.Conf.UserAgent != "", "conf:blobLimit": c.Conf.BlobLimit != 0,
+		"conf:interval": c.Conf.Sched == 1, "conf:schedule": c.Conf.Sched == 2, "conf:no-version": c.Conf.NoVersion, "conf:x-extension+anchor": c.Conf.XExt, "conf:cred-extras": c.Conf.CredExtras} {
+		if on {
+			set[l] = true
+		}
+	}
+	for _, hc := range c.Hosts {
+		if hc.RateRemain > 0 {
+			set["host:ratelimit-headers"] = true
+		}
+		if hc.User != "" {
+			set["host:basic-auth"] = true
+		}
+	}
 	for _, p := range c.Places {
 		set["place:"+p.Kind] = true
 	}
@@ -469,6 +530,15 @@ func caseLabels(c Case, obs *Obs) []string {
 	for si, s := range c.Scripts {
 		raised := false
 		cfgRaiseHere := false
+		if s.Kind != "" {
+			set["script:"+s.Kind] = true
+			if si < len(c.Scripts)-1 {
+				set["script:"+s.Kind+"-with-later-scripts"] = true
+			}
+		}
+		if s.Timeout == "1ms" {
+			set["ctx:script-timeout-1ms"] = true
+		}
 		for k, st := range s.Stmts {
 			thr := false
 			for _, cl := range st.Calls {
@@ -509,6 +579,24 @@ func caseLabels(c Case, obs *Obs) []string {
 			}
 			if strings.Contains(st.Lua, "pcall(") {
 				set["ctl:pcall"] = true
+			}
+			if strings.Contains(st.Lua, "xpcall(") {
+				set["ctl:xpcall"] = true
+			}
+			if strings.Contains(st.Lua, "coroutine.wrap") {
+				set["ctl:coroutine.wrap"] = true
+			}
+			if strings.Contains(st.Lua, "coroutine.resume") {
+				set["ctl:coroutine.resume"] = true
+			}
+			if strings.Contains(st.Lua, "local f_") {
+				set["ctl:binding-called-through-alias"] = true
+			}
+			if strings.Contains(st.Lua, "ok0") {
+				set["ctl:caught-error-then-call-in-same-statement"] = true
+				if st.Mut != "" {
+					set["ctl:caught-error-then-MUTATING-call-in-same-statement"] = true
+				}
 			}
 			if strings.Contains(st.Lua, "for _, ") {
 				set["ctl:loop-over-listing"] = true
